@@ -476,7 +476,12 @@ def rules(ctx: Ctx) -> None:
                 if meth == "remove_node":
                     x = u(k.args[0]) if k.args else "?"
                     import re as _re
-                    dpat = r"\w+\.degree[\[(]" + _re.escape(x) + r"[\])]"
+                    # the degree must be that of the very graph the node is removed from (a read leaves an alias / column edge that a
+                    # dataset-only view of the graph does not show): <G>.degree[x] with <G> the receiver of remove_node or a plain alias of it
+                    recv = k.func.value
+                    same_graph = [gname for gname in {m.group(1) for t, _ in facts for m in [_re.match(r"(?:not )?(\w+)\.degree[\[(]", t)] if m}
+                                  if gname == u(recv) or any(isinstance(v, ast.Name) and v.id == u(recv) for v in prog.value_sources(fold, ast.Name(id=gname, ctx=ast.Load())))]
+                    dpat = "(?:" + "|".join(_re.escape(gn) for gn in same_graph) + r")\.degree[\[(]" + _re.escape(x) + r"[\])]" if same_graph else r"(?!x)x"
                     deg0 = any(p and (_re.fullmatch(dpat + " == 0", t) or _re.fullmatch("not " + dpat, t)) or (not p) and (_re.fullmatch(dpat, t) or _re.fullmatch(dpat + " > 0", t)) for t, p in facts)
                     is_loopvar = _is_loop_target_of(cfg, c.id, x, (f"{hname}.drop", f"{hname}.rename"))
                     ctx.ob("R03.3", f"fold:remove_node:{branch}", deg0 and is_loopvar and branch in ("drop", "rename"), where,
